@@ -22,6 +22,7 @@ inductive Obs
   | has (b : Bool)
   | info (length byteLength contiguous : Nat) (writable : Bool)
   | failed (f : Fail)
+  | reopened
 
 /-- the abstract log -/
 structure Abs where
@@ -75,5 +76,22 @@ def Valid (a : Abs) : Op → Prop
   | .append batch => a.blocks.size + batch.length < 2 ^ 64 ∧ totalBytes (a.blocks ++ batch.toArray) < 2 ^ 64
   | .clear s e => s < e → s < a.blocks.size
   | _ => True
+
+/-- a step of a history: an API call, or dropping the instance and opening the storage again -/
+inductive HStep
+  | call (op : Op)
+  | reopen
+
+def Abs.step' (a : Abs) : HStep → Abs × Obs
+  | .call op => a.step op
+  | .reopen => (a, .reopened)
+
+/-- `reopen` = `HypercoreBuilder::new(storage).open(true).build()` on the same four stores -/
+def stepC' (C : Crypto) (s : Core × Disk) : HStep → (Core × Disk) × Obs
+  | .call op => stepC C s op
+  | .reopen =>
+    match Core.openCore C none s.2 with
+    | .ok (c', j) => ((c', s.2.applyAll j), .reopened)
+    | .error e => (s, .failed e)
 
 end HC.LogSpec
